@@ -369,6 +369,20 @@ def face_cases():
                 'fd://3', 'tcp7://localhost:6363', 'udp5://localhost', 'unixx:///run/nfd.sock', 'ftp://h:21', 'quic://h:6367',
                 'memif:///run/ndn/x.sock', 'tcp', 'localhost:6363', '', 'nfd', '://localhost', 'tcp-tls://h:1', 'sctp://h'):
         yield dict(family='face', uri=uri, expect='error')
+    # near misses of the seven supported schemes: extra / doubled / reordered family digits, prefixes, suffixes
+    known = ('unix', 'tcp', 'tcp4', 'tcp6', 'udp', 'udp4', 'udp6')
+    near = set()
+    for base in known:
+        for suf in ('4', '6', '46', '64', '44', '66', '444', '0', '5', 's', 'x', '4x', '.4', '+4'):
+            near.add(base + suf)
+        for pre in ('x', '4', 's', 't'):
+            near.add(pre + base)
+        near.add(base[:-1])
+        near.add(base[1:])
+    for scheme in sorted(near - set(known)):
+        for rest in ('localhost:6363', '192.0.2.7', '/run/nfd/nfd.sock'):
+            uri = f'{scheme}://{rest}'
+            yield dict(family='face', uri=uri, expect=_uri_expect(uri))
 
 
 def _conf_case(env, files, first, style, pib_default, tpm_default, cwd_rel=False):
